@@ -91,3 +91,32 @@ Proof.
   intros. unfold g_runner_parallelCheck. split; [reflexivity|]. intros p Hp.
   gen_split; try reflexivity; exfalso; lia.
 Qed.
+
+(* ---------------- util.Unflatten ---------------- *)
+(* b[lo:hi] *)
+Definition slice {A} (l : list A) (lo hi : nat) : list A := firstn (hi - lo) (skipn lo l).
+
+(* one turn of the loop at index i < len(b): the group is b[i : i+size], cut at len(b) when that overshoots (1) - the
+   model's firstn size of what is left *)
+Lemma gen_unflatten_body : forall (A : Type) (b : list A) (i size : nat), (i < length b)%nat ->
+  firstn size (skipn i b) =
+  match g_unflatten_body (Z.of_nat (i + size)) (Z.of_nat (length b)) with
+  | ([1; 2], Fall) => slice b i (length b)
+  | ([2], Fall) => slice b i (i + size)
+  | _ => []
+  end.
+Proof.
+  intros A b i size Hi. unfold g_unflatten_body, slice. rewrite Z.gtb_ltb.
+  destruct (Z.ltb_spec (Z.of_nat (length b)) (Z.of_nat (i + size))).
+  - rewrite firstn_all2 by (rewrite skipn_length; lia). symmetry. apply firstn_all2. rewrite skipn_length. lia.
+  - f_equal. lia.
+Qed.
+
+(* the model's unflatten, one step: the first group is the loop body at i = 0 and the rest is what the loop sees next *)
+Lemma unflatten_step : forall (A : Type) (f : nat) (x : A) (l : list A) (size : nat),
+  unflatten_fuel (S f) (x :: l) size =
+  match unflatten_fuel f (skipn size (x :: l)) size with
+  | Some gs => Some (firstn size (skipn 0 (x :: l)) :: gs)
+  | None => None
+  end.
+Proof. intros. reflexivity. Qed.
